@@ -138,3 +138,27 @@ Fixpoint tokenise_calls_nb (nb : bool) (c : cfg) (st : tstate) (calls : list (li
   end.
 Definition tokenise_ns_nb (nb : bool) (c : cfg) (tracks : list (list msg)) : string :=
   show_res (fun x => show_toks (drop_bars nb (fst x))) (tokenise c (tstate0 c) tracks).
+
+Definition make_cfg_full (tslo tshi ppqn ntracks plo phi : Z) (steps values : option (list Z)) (nbins : Z)
+           (running ftrk fval fvel simplify : bool) : cfg :=
+  let c := make_cfg_ppqn ppqn ntracks plo phi steps values nbins running ftrk fval fvel simplify in
+  mkcfg (c_ppqn c) (c_ntracks c) (c_plo c) (c_phi c) (c_steps c) (c_values c) (c_vbins c) tslo tshi
+        (c_running c) (c_ftrk c) (c_fval c) (c_fvel c) (c_simplify c).
+
+(* ---- harness-level compound operations: one public call that is a fixed sequence of modelled operations
+   (e.g. Sequence.scale(k) with its default quantise_afterwards=True); stops at the first error like Python *)
+Inductive hop : Set := HOp (o : op) | HSeq (os : list op).
+Fixpoint hseq (st : store) (os : list op) (last : out) : store * out :=
+  match os with
+  | [] => (st, last)
+  | o :: os' => let '(st1, x) := step st o in
+                match x with OErr _ => (st1, x) | _ => hseq st1 os' x end
+  end.
+Definition hstep (st : store) (h : hop) : store * out :=
+  match h with HOp o => step st o | HSeq os => hseq st os ONone end.
+Fixpoint run_trace_h (st : store) (hs : list hop) : list string :=
+  match hs with
+  | [] => []
+  | h :: hs' => let '(st1, x) := hstep st h in (show_out x ++ "@" ++ show_store st1) :: run_trace_h st1 hs'
+  end.
+Definition show_trace_h (hs : list hop) : string := sjoin "$" (run_trace_h [] hs).
